@@ -20,12 +20,41 @@ code=0; n=0
 IFS=,
 for c in $3; do n=$((n+1)); code=$c; [ "$n" -ge "$it" ] && break; done
 echo "e $name $it" >> "$C12_LOG"
+case "$code" in k*) kill -"${code#k}" $$; sleep 5;; esac      # k9 = die from SIGKILL, k11 = SIGSEGV
 exit "$code"
 '''
 
 TAP_TEXTS = ['1..1\nok 1\n', '1..2\nok 1\nnot ok 2\n', '1..1\nok 1 # SKIP nope\n', '1..0 # SKIP all\n', 'Bail out! x\n',
              '1..2\nok 1\n', 'ok 1\nok 2\n1..2\n', '1..1\nnot ok 1 # TODO later\n', '1..1\nok 1 # TODO\n', '']
 RUST_TEXTS = ['test a ... ok\n', 'test a ... ok\ntest b ... FAILED\n', 'test a ... ignored\n', '', 'test a ... what\n']
+
+
+def code_rc(c):
+    """exit code token of t.sh -> returncode meson sees (k<N> = killed by signal N)"""
+    return -int(c[1:]) if isinstance(c, str) and c.startswith('k') else int(c)
+
+
+def mk_test(i, **kw):
+    t = {'name': 't%d' % i, 'par': True, 'prio': 0, 'should_fail': False, 'timeout': None, 'suites': [], 'proto': 'exitcode',
+         'sleep': '0.02', 'codes': [0], 'will_timeout': False, 'expected_exitcode': None, 'text': ''}
+    t.update(kw)
+    return t
+
+
+def corpus_project():
+    """hand-picked: tap tests whose stream says SKIP / OK while the program exits non-zero (or dies from a signal),
+    with and without should_fail, next to plain exit-code tests"""
+    K = O.TAP_KINDS
+    return {'tests': [
+        mk_test(0, proto='tap', text=K['allskip'], codes=[1]),
+        mk_test(1, proto='tap', text=K['planskip'], codes=[3], par=False),
+        mk_test(2, proto='tap', text=K['empty'], codes=[99], should_fail=True),
+        mk_test(3, proto='tap', text=K['allskip'], codes=[0]),
+        mk_test(4, proto='tap', text=K['pass'], codes=[77]),
+        mk_test(5, proto='tap', text=K['empty'], codes=['k9']),
+        mk_test(6, proto='exitcode', codes=['k11'], should_fail=True, suites=['x']),
+        mk_test(7, proto='tap', text=K['fail'], codes=[1], should_fail=True, prio=5),
+    ]}
 
 
 def gen_project(rng, adversarial=False):
@@ -46,15 +75,15 @@ def gen_project(rng, adversarial=False):
             ms = rng.choice([10, 20, 30, 50, 80, 120, 150])
         ncodes = rng.choice([1, 1, 1, 2, 3])
         if proto in ('tap', 'rust'):
-            codes = [rng.choice([0, 0, 0, 1, 2]) for _ in range(ncodes)]
+            codes = [rng.choice([0, 0, 0, 1, 2, 3, 77, 99, 'k9']) for _ in range(ncodes)]
         else:
-            codes = [rng.choice([0, 0, 0, 0, 0, 1, 2, 77, 99, 127, 3]) for _ in range(ncodes)]
+            codes = [rng.choice([0, 0, 0, 0, 0, 1, 2, 77, 99, 127, 3, 'k9', 'k11']) for _ in range(ncodes)]
         t = {'name': 't%d' % i, 'par': rng.random() >= pser, 'prio': rng.choice([0, 0, 0, 0, 5, 10, -1, 5]),
              'should_fail': rng.random() < 0.2, 'timeout': 1 if will_timeout else None,
              'suites': rng.choice([[], [], ['x'], ['y'], ['x', 'y']]), 'proto': proto,
              'sleep': '30' if will_timeout else '%.2f' % (ms / 1000.0), 'codes': codes, 'will_timeout': will_timeout,
              'expected_exitcode': 3 if (proto == 'exitcode' and rng.random() < 0.08) else None,
-             'text': rng.choice(TAP_TEXTS) if proto == 'tap' else rng.choice(RUST_TEXTS) if proto == 'rust' else ''}
+             'text': rng.choice(TAP_TEXTS + sorted(O.TAP_KINDS.values()) * 2) if proto == 'tap' else rng.choice(RUST_TEXTS) if proto == 'rust' else ''}
         tests.append(t)
     return {'tests': tests}
 
@@ -214,7 +243,7 @@ def run_cli(ctx, built, thorough, only=None):
     if only is not None:
         projs = [only['project']]
     else:
-        projs = [gen_project(rng, adversarial=(thorough and i % 2 == 1) or (not thorough and i == 5)) for i in range(nproj)]
+        projs = [corpus_project()] + [gen_project(rng, adversarial=(thorough and i % 2 == 1) or (not thorough and i == 5)) for i in range(1, nproj)]
     dirs = [os.path.join(scratch, 'proj%d' % i) for i in range(len(projs))]
     setups = pmap(lambda a: write_project(*a), list(zip(dirs, projs)))
     for r, d in zip(setups, dirs):
@@ -396,11 +425,12 @@ def run_cli(ctx, built, thorough, only=None):
         for b in O.trace_clauses(par_decl, inv['jobs'], fixed, cut):
             viol('event log: ' + b, ob['events'])
         # ---------- oracle: classification per documented rule, totals, exit status
+        must_fail = []
         for (nm, it), e in tl.items():
             if nm not in byname:
                 continue
             t = byname[nm]
-            rc = t['codes'][min(it, len(t['codes'])) - 1]
+            rc = code_rc(t['codes'][min(it, len(t['codes'])) - 1])
             w = 't' if t['will_timeout'] else 'x'
             if e['result'] == 'INTERRUPT' and cut:
                 w = 'c'
@@ -409,6 +439,16 @@ def run_cli(ctx, built, thorough, only=None):
                 if e['result'] != want:
                     viol('test %s (exit status %d, should_fail=%s, %s) reported %s, documented rule says %s'
                          % (nm, rc, t['should_fail'], 'times out' if w == 't' else 'ends by itself', e['result'], want))
+            want = None
+            if t['proto'] == 'tap' and t['text'] in O.TAP_KIND_OF:
+                want = O.documented_tap_result(O.TAP_KIND_OF[t['text']], t['should_fail'], w, rc)
+                if e['result'] != want:
+                    viol('tap test %s prints %r and its program exits with status %d (should_fail=%s, %s): reported %s, documented rule says %s'
+                         % (nm, t['text'], rc, t['should_fail'], 'times out' if w == 't' else 'ends by itself', e['result'], want))
+            elif t['proto'] in ('exitcode', 'gtest') and t['expected_exitcode'] is None:
+                want = O.documented_result(t['should_fail'], w, rc)
+            if want in O.BAD and w != 'c':
+                must_fail.append('%s (exit status %d -> %s)' % (nm, rc, want))
             if e['result'] == 'TIMEOUT' and ['e', nm, str(it)] in ob['events']:
                 viol('test %s passed its time limit (reported TIMEOUT) but was not terminated: it ran to its normal end' % nm, ob['events'])
             # (a test killed by meson -- TIMEOUT / INTERRUPT -- may die before it could log its start)
@@ -417,6 +457,13 @@ def run_cli(ctx, built, thorough, only=None):
             e['_model'] = mcall3('classify', [{'exitcode': 'e', 'gtest': 'g', 'tap': 't', 'rust': 'r'}[t['proto']], 'T' if t['should_fail'] else 'F',
                                               str(t['expected_exitcode'] or 0), evs_of.get((t['proto'], t['text']), ''), w, str(rc)])
         printed = parse_summary(ob['stdout'])
+        if must_fail and ob['rc'] == 0:
+            viol('`meson test` exits 0 although the documented rule makes these runs bad: %s' % ', '.join(must_fail[:6]),
+                 {'stdout_tail': ob['stdout'][-600:], 'results': results})
+        bad_total = (printed.get(2) or 0) + (printed.get(3) or 0) + (printed.get(6) or 0)
+        if len(must_fail) > bad_total:
+            viol('the console totals count %d failed / unexpectedly passed / timed out runs, the documented rule makes %d runs bad: %s'
+                 % (bad_total, len(must_fail), ', '.join(must_fail[:6])), {'stdout_tail': ob['stdout'][-600:]})
         for b in O.tally_clauses(results, [printed.get(i) for i in range(7)], ob['rc']):
             viol('totals / exit status: ' + b, {'stdout_tail': ob['stdout'][-600:], 'results': results})
         vanished = [i for i in started if (selected[i % nsel], i // nsel + 1) not in tl]
